@@ -150,11 +150,7 @@ theorem apply_joinMax (old : Option V) (v : V) :
     some (Merge.apply .joinMax old v) = optMax old (some v) := by
   cases old with
   | none => rfl
-  | some o =>
-    simp only [Merge.apply, optMax]
-    by_cases h : o < v
-    · simp [h, max_eq_right (le_of_lt h)]
-    · simp [h, max_eq_left (not_lt.1 h)]
+  | some o => rfl
 
 theorem written_snoc_write (ops : List (SyncOp K V)) (r : Nat) (kw : K) (v : V) (k : K) :
     written (ops ++ [SyncOp.write r kw v]) k =
